@@ -1080,9 +1080,20 @@ func (r *run) step(s drv.Step) (res string, extra map[string]any) {
 		errs := []string{}
 		r.w.rec.calls = nil
 		var pan any
+		// The error the attestation pass ends with is read from the keeper on a discarded branch (same two stages,
+		// same order as the module's end blocker), not from a log line; the real end blocker then runs on the context.
+		func() {
+			defer func() { _ = recover() }()
+			probe, _ := r.ctx.CacheContext()
+			_ = r.w.e.Consensus.CheckAndProcessEstimatedMessages(probe)
+			if err := r.w.e.Consensus.CheckAndProcessAttestedMessages(probe); err != nil {
+				errs = append(errs, err.Error())
+			}
+		}()
+		r.w.rec.calls = nil
 		func() {
 			defer func() { pan = recover() }()
-			must(r.w.mod.EndBlock(r.ctx.WithLogger(capLogger{&errs})))
+			must(r.w.mod.EndBlock(r.ctx))
 		}()
 		rt := []any{}
 		for _, c := range r.w.rec.calls {
